@@ -102,6 +102,20 @@ def diag_labels(ctx):
             vary = rng.random() < 0.5   # enumerated values with their type name (T#V), identifier case per occurrence
             cases.append({'fault': fk, 'code': code, 'texts': [units.print_file(f, rng, vary=vary) for f in files]})
     if ctx.quick() and len(cases) > 500: cases = rng.sample(cases, 500)
+    # one global name declared in two configurations, constant in one of them only, and a non-constant external of it:
+    # the label "constant global variable" must stand on the constant declaration, wherever the other one stands
+    V = units.var
+    for k in range(4 if ctx.quick() else 24):
+        g, c1, c2, t1, t2, i1, i2, pn, pv, fx, fv = [8100 + 20 * k + j for j in range(11)]
+        prog = ('P', pn, [V(pv, 'v', 'i')], [('a', pv, [])])
+        plain = ('C', c1, [V(g, 'g', 'i', 1, False)], [t1], [(i1, t1, pn)])
+        const = ('C', c2, [V(g, 'g', 'i', 2, True)], [t2], [(i2, t2, pn)])
+        user = ('F', fx, [V(fv, 'v', 'i'), V(g, 'e', 'i', None, False)], [('a', fv, [g])])
+        ds = [prog, plain, const, user]
+        rng.shuffle(ds)
+        nf = rng.choice([1, 2, 3])
+        files = units.split_files(rng, ds, nf) if nf > 1 else [ds]
+        cases.append({'fault': 'external-not-const', 'code': 'P0018', 'texts': [units.print_file(f, rng, vary=rng.random() < 0.5) for f in files if f]})
     out = core.run_lines(core.VH, ['project ' + ' '.join(core.hexs(t) if t else '-' for t in c['texts']) for c in cases], jobs=12)
     lexed = {}
     def token_bounds(text):
@@ -150,6 +164,15 @@ def diag_labels(ctx):
                 if marker is not None and units.nm(marker).upper() not in re.split(r'[^A-Za-z0-9_]+', slices[0][2].upper()):
                     ctx.violations.append({'stream': 'labels', 'case': show, 'impl': d, 'model': None,
                                            'what': f'the {code} diagnostic about the name {units.nm(marker)} labels the text `{slices[0][2]}`, which does not contain it'})
+                if code == 'P0018' and len(slices) >= 2 and slices[1] is not None:
+                    # the secondary label names the constant global: it lies in a VAR_GLOBAL CONSTANT block
+                    f2, a2, t2 = slices[1]
+                    before = c['texts'][f2].encode('utf-8')[:a2].decode('utf-8', 'replace').upper()
+                    hdr = re.findall(r'VAR_GLOBAL(\s+CONSTANT)?|VAR_EXTERNAL|VAR_INPUT|VAR_OUTPUT|VAR_IN_OUT|VAR\b', before)
+                    last = re.findall(r'(VAR_GLOBAL(?:\s+CONSTANT)?|VAR_EXTERNAL|VAR_INPUT|VAR_OUTPUT|VAR_IN_OUT|VAR\b)', before)
+                    if not last or not re.match(r'VAR_GLOBAL\s+CONSTANT', last[-1]):
+                        ctx.violations.append({'stream': 'labels', 'case': show, 'impl': d, 'model': None,
+                                               'what': f'the label of {code} for the constant global variable stands on `{t2}` in a {last[-1] if last else "?"} block, which is not a constant global declaration'})
                 if code in ('P0019', 'P0020') and len(slices) >= 2 and slices[1] is not None:
                     (f1, a1, t1), (f2, a2, t2) = slices[0], slices[1]
                     if t1.upper() != t2.upper():
